@@ -82,6 +82,23 @@ def correspond(res, tier):
             res.violation('C02:operation-raises:' + str(ops[-1][0]), dict(history=batch.histories[-1]))
         elif status == 'err':
             res.bump('unifs_precondition_asserts')
+    # several meshes alive at once, operations interleaved (anything kept on the class / module level between Mesh objects)
+    for grp in range(2 if tier == 'quick' else 12):
+        specs = []
+        for j in range(3):
+            glue, X, T = INITIAL_GRIDS[(grp * 3 + j) % len(INITIAL_GRIDS)]
+            Lj = rng.randint(8, 25 if tier == 'quick' else 60)
+
+            def gen(pm, k, Lj=Lj):
+                if k >= Lj or len(pm.mesh.leaf_elements) > 200:
+                    return None
+                return random_op(rng, pm, ['rt', 'rs', 'rb', 'diso', 'daniso', 'grade'], 0.6)
+            specs.append((glue, X, T, gen))
+        for (pm, ops, status), sp in zip(batch.add_interleaved(specs, rng), specs):
+            res.count(('interleaved', grp, len(ops), res.seed), any(o[0] in ('rt', 'rs', 'rb') for o in ops))
+            finals.append((pm, sp[0], sp[1], sp[2], batch.histories[-1]))
+            if status == 'err':
+                res.violation('C02:operation-raises:' + str(ops[-1][0]), dict(history=batch.histories[-1], interleaved=True))
     dis = batch.run()
     res.notes['model_lines'] = len(batch.lines)
     if dis is not None:
